@@ -121,11 +121,14 @@ type RPCPlan struct {
 	StartGate      int  // caller waits for this gate before starting (0 = none)
 	StartDelay     time.Duration
 
-	Role          string // "", "interest", "bystander", "disturber", "fresh"
-	pausedHandler bool
-	pausedReader  bool // this RPC\'s consumer is parked behind a gate for part of the run
-	neverEnds     bool // the handler only returns when its context ends
-	late          bool // started after the tunnel ended
+	Role            string // "", "interest", "bystander", "disturber", "fresh"
+	pausedHandler   bool
+	pausedReader    bool // this RPC\'s consumer is parked behind a gate for part of the run
+	timeoutClass    string
+	timeoutRepeated string
+	awaitExpiry     bool
+	neverEnds       bool // the handler only returns when its context ends
+	late            bool // started after the tunnel ended
 
 	// results filled in at run time (read after the run)
 	Res *RPCResult
@@ -617,8 +620,8 @@ func (w *World) RunCaller(parent context.Context, cc grpc.ClientConnInterface, p
 		md[k] = append([]string(nil), v...)
 	}
 	md.Set("sim-rpc", strconv.Itoa(p.ID))
-	if p.GrpcTimeout != "" {
-		md.Set("grpc-timeout", p.GrpcTimeout)
+	if p.GrpcTimeout != "" || p.timeoutClass != "" {
+		md.Append("grpc-timeout", p.GrpcTimeout)
 	}
 	if !p.NoOutgoingMD {
 		ctx = metadata.NewOutgoingContext(ctx, md)
